@@ -148,6 +148,71 @@ def _worker(args):
     return acc.viol, acc.samples, acc.counts, acc.distinct
 
 
+def long_expressions(res, work, n):
+    """real extraction for random expressions with 8-20 operands over the whole key range, decided by TLC (KeysTrace.tla)"""
+    import ahb
+    ahb.configure()
+    from common import validate_traces
+    from ahbicht.expressions.condition_expression_parser import extract_categorized_keys
+    rng = random.Random(seed() * 401 + 18)
+    traces = []
+
+    def rand_key():
+        k = rng.random()
+        if k < 0.45:
+            return rng.randint(1, 499)
+        if k < 0.6:
+            return rng.randint(500, 900)
+        if k < 0.75:
+            return rng.randint(901, 999)
+        if k < 0.9:
+            return rng.randint(2000, 2499)
+        if k < 0.97:
+            return rng.choice([1, 9, 10, 99, 100, 499, 500, 900, 901, 999, 2000, 2499])
+        return rng.choice([0, 1000, 1500, 1999, 2500, 2600])
+
+    async def go():
+        for tid in range(1, n + 1):
+            ops = []
+            for _ in range(rng.randint(8, 20)):
+                k = rng.random()
+                if k < 0.85:
+                    ops.append({"t": "key", "n": rand_key() if rng.random() < 0.8 or not ops else rng.choice(ops)["n"]})
+                elif k < 0.93:
+                    ops.append({"t": "pkg", "n": rng.randint(1, 30)})
+                else:
+                    ops.append({"t": "time", "n": rng.randint(1, 3)})
+            ops = [o if o["t"] != "key" or isinstance(o["n"], int) else o for o in ops]
+            expr = render(ops, rng)
+            try:
+                x = await extract_categorized_keys(expr)
+                rc, hint, fc, pkg, tm = real_lists(x)
+                ncers = -1
+                if len(rc) + len(fc) >= 1 and len(rc) <= 4 and len(fc) <= 4:
+                    ncers = len(x.generate_possible_content_evaluation_results())
+                if len(x.package_keys) != len(set(x.package_keys)) or len(x.time_condition_keys) != len(set(x.time_condition_keys)):
+                    res.violation(f"extract of {expr!r} lists a package or time condition twice: {x.package_keys} {x.time_condition_keys}", {"expr": expr})
+                t = {"id": tid, "ops": ops, "rejected": False, "ncers": ncers,
+                     "extract": {"rc": [int(k) for k in rc], "hint": [int(k) for k in hint], "fc": [int(k) for k in fc],
+                                 "pkg": [int(k[:-1]) for k in pkg], "time": [int(k[2:]) for k in tm]}}
+            except ValueError:
+                t = {"id": tid, "ops": ops, "rejected": True, "ncers": -1, "extract": {"rc": [], "hint": [], "fc": [], "pkg": [], "time": []}}
+            t["expr"] = expr
+            traces.append(t)
+
+    asyncio.run(go())
+    slim = [{k: v for k, v in t.items() if k != "expr"} for t in traces]
+    t2, acc, diag = validate_traces("KeysTrace", "KeysTrace.cfg", slim, work, tag="keystrace")
+    res.add_tlc(f"KeysTrace: real extracts of {len(traces)} random expressions with 8-20 operands decided by TLC against Extract / the product size", t2)
+    res.count("long_expressions", len(traces))
+    for t in traces:
+        res.distinct(("long", t["expr"]))
+        if t["id"] not in acc:
+            at, exp = diag.get(t["id"], (0, ()))
+            res.violation(f"extract_categorized_keys({t['expr']!r}) = {t['extract']} (rejected={t['rejected']}, {t['ncers']} generated results); documented: {exp}",
+                          {"expr": t["expr"]})
+
+
 def run():
     from c02 import merge
     res = Result(PID)
@@ -186,7 +251,8 @@ def run():
     with mp.get_context("fork").Pool(16) as pool:
         merge(res, pool.map(_worker, [(str(dump), i, 16, seed()) for i in range(16)]))
     dump.unlink()
-    res.coverage["traces_validated_against_impl"] = res.coverage.get("extractions", 0) + 2601
+    long_expressions(res, work, 1500 if thorough else 200)
+    res.coverage["traces_validated_against_impl"] = res.coverage.get("extractions", 0) + 2601 + res.coverage.get("long_expressions", 0)
     res.coverage["evaluations"] = res.coverage.get("evaluations", 0) + res.coverage.get("extractions", 0)
     res.coverage["exhaustive"] = True
     res.coverage["rule"] = ("(a) every key number 0..2600 against the documented ranges; (b) every sequence of <= 4 operands over a pool of boundary keys (incl. keys whose "
